@@ -338,7 +338,13 @@ func c11History(c *mon.Ctx, r *mon.Rand) {
 					ops = append(ops, fmt.Sprintf("%s.Histogram(%q,%v).RecordValue(%v)", s.id.Prefix, name+"h", m.V, x))
 				}
 			case op == 9:
-				snap := ts.Snapshot()
+				var snap tally.Snapshot
+				if via, ok := s.sc.(tally.TestScope); ok && r.Bool() {
+					snap = via.Snapshot() // through a derived handle: same content
+					c.Event("snapshots-via-derived-handle", 1)
+				} else {
+					snap = ts.Snapshot()
+				}
 				when := fmt.Sprintf("snapshot after op %d", i)
 				c11Check(c, snap, ref, when, desc())
 				olds = append(olds, frozen{snap, c11Freeze(snap), when})
